@@ -80,6 +80,14 @@ func (m *Machine) newByteSlice(b []byte) SliceV {
 // values (integer mode) are linear forms with the usual side constraints.
 func (m *Machine) bigStub(fn *ssa.Function, args []Value) (Value, bool) {
 	full := fn.String()
+	if full == "math/big.Jacobi" && m.intMode {
+		// number-theoretic external function: an arbitrary value in {-1, 0, 1} (constants are computed)
+		x, y := m.bigOf(args[0]), m.bigOf(args[1])
+		if x.isConst() && y.isConst() {
+			return m.constInt(big.NewInt(int64(big.Jacobi(x.c, y.c))), types.Typ[types.Int]), true
+		}
+		return m.nondet("jacobi", 8, true, big.NewInt(-1), big.NewInt(1)), true
+	}
 	if !strings.HasPrefix(full, "(*math/big.Int).") {
 		return nil, false
 	}
@@ -306,6 +314,26 @@ func (m *Machine) bigStub(fn *ssa.Function, args []Value) (Value, bool) {
 				}
 				q, _ := m.divmod(m.bigLin(get(1)), p)
 				return ret(BigV{lin: q})
+			}
+		}
+	case "Exp":
+		// x^e mod m for a constant exponent (up to 16 bits) and a constant positive modulus: square-and-multiply over
+		// the integer encoding (products are abstracted and refined like every other product)
+		if e, mod := get(2), get(3); e.isConst() && e.c.Sign() >= 0 && e.c.BitLen() <= 16 && mod.isConst() && mod.c.Sign() > 0 {
+			if allConst(1) {
+				return ret(BigV{c: new(big.Int).Exp(get(1).c, e.c, mod.c)})
+			}
+			if m.intMode {
+				_, base := m.divmod(m.bigLin(get(1)), mod.c)
+				acc := linConstI(1)
+				for i := e.c.BitLen() - 1; i >= 0; i-- {
+					_, acc = m.divmod(m.linMul(acc, acc), mod.c)
+					if e.c.Bit(i) == 1 {
+						_, acc = m.divmod(m.linMul(acc, base), mod.c)
+					}
+				}
+				_, acc = m.divmod(acc, mod.c)
+				return ret(BigV{lin: acc})
 			}
 		}
 	case "ModInverse":
